@@ -306,16 +306,11 @@ def run(ctx, rep):
                    "third operand %r" % names if names == [opn] else
                    "%s sends operator name %s (a peer then applies a different comparison)" % (role, names), f.loc, kind="table")
     # handler table maps every published id to the handler of the same role name
-    ft = ctx.func(K.CONN + "._request_handlers")
-    table = None
-    for n in A.walk(ft.node):
-        if isinstance(n, ast.Return) and isinstance(n.value, ast.Dict):
-            table = n.value
-    if table is None:
-        raise AnalysisError("_request_handlers no longer returns a dict literal")
+    from . import c06 as _c06
+    table, rows_ = _c06.handler_table(ctx)
     got_tbl = {}
-    for k, v in zip(table.keys, table.values):
-        got_tbl.setdefault(ctx.try_fold(k), []).append(A.src(v).split(".")[-1])
+    for hid_, name_, _, _ in rows_:
+        got_tbl.setdefault(hid_, []).append(name_)
     for name, want in sorted(ref["consts"].items()):
         if not name.startswith("HANDLE_"):
             continue
